@@ -37,15 +37,15 @@ func keyLess(a, b [3]int) bool {
 
 // feature slots and their values (value 0 = absent)
 var c07Features = [][]string{
-	{"", "@@"},           // 0 exception
-	{"", "important"},    // 1
-	{"", "domain=a.com"}, // 2
+	{"", "@@"},                            // 0 exception
+	{"", "important"},                     // 1
+	{"", "domain=a.com", "domain=~a.com"}, // 2 (the negated form restricts but does not make the rule specific)
 	{"", "script", "script,image", "~script", "~script,~image"}, // 3 content types
 	{"", "third-party", "~third-party"},                         // 4
 	{"", "match-case"},                                          // 5
-	{"", "dnstype=A"},                                           // 6
-	{"", "ctag=pc"},                                             // 7
-	{"", "client=10.0.0.1"},                                     // 8
+	{"", "dnstype=A", "dnstype=~A"},                             // 6
+	{"", "ctag=pc", "ctag=~pc"},                                 // 7
+	{"", "client=10.0.0.1", "client=~10.0.0.1"},                 // 8
 	{"", "denyallow=x.com"},                                     // 9
 }
 
@@ -88,7 +88,7 @@ func c07Pool(quick bool) (pool []*c07Rule, rejected int) {
 		dims[i] = len(f)
 	}
 	if quick {
-		dims[5], dims[6] = 1, 1 // drop match-case and dnstype
+		dims[5], dims[6], dims[4] = 1, 1, 2 // quick: drop match-case, dnstype and ~third-party
 	}
 	feat := make([]int, len(dims))
 	var rec func(i int)
@@ -238,26 +238,32 @@ func init() {
 		var additions int64
 		for i, r := range pool {
 			for slot := 1; slot < len(c07Features); slot++ {
-				nf := append([]int{}, r.feat...)
+				var cands []int
 				switch {
 				case slot == 3 && (r.feat[3] == 1 || r.feat[3] == 3):
-					nf[3] = r.feat[3] + 1 // script -> script,image ; ~script -> ~script,~image
+					cands = []int{r.feat[3] + 1} // script -> script,image ; ~script -> ~script,~image
+				case slot == 3 && r.feat[3] == 0:
+					cands = []int{1, 3}
 				case r.feat[slot] == 0:
-					nf[slot] = 1
-				default:
-					continue
+					for v := 1; v < len(c07Features[slot]); v++ {
+						cands = append(cands, v) // the plain and, where there is one, the negated form
+					}
 				}
-				nr := c07Build(nf)
-				if nr == nil {
-					continue
-				}
-				j, ok := byText[nr.text]
-				if !ok {
-					continue // outside the quick pool
-				}
-				additions++
-				if !M.get(j, i) || M.get(i, j) {
-					violate("adding-a-modifier-raises-priority", []int{j, i}, fmt.Sprintf("%q does not strictly outrank %q", pool[j].text, pool[i].text))
+				for _, v := range cands {
+					nf := append([]int{}, r.feat...)
+					nf[slot] = v
+					nr := c07Build(nf)
+					if nr == nil {
+						continue
+					}
+					j, ok := byText[nr.text]
+					if !ok {
+						continue // outside the quick pool
+					}
+					additions++
+					if !M.get(j, i) || M.get(i, j) {
+						violate("adding-a-modifier-raises-priority", []int{j, i}, fmt.Sprintf("%q does not strictly outrank %q", pool[j].text, pool[i].text))
+					}
 				}
 			}
 		}
